@@ -189,7 +189,7 @@ template <class VT> struct FromRaw<VT, true> {
 
 template <class F, bool IsIntKind> struct Carrier;
 template <class F> struct Carrier<F, true> {
-  // UInt/Int views take any integer type: candidates are passed as int64_t (carrier 1) and uint64_t (carrier 2)
+  // UInt/Int/Bcd views take any integer type: candidates are passed as int64_t (carrier 1) and uint64_t (carrier 2)
   static bool apply(F &f, i128 cand, int carrier, bool &could, bool &wrote) {
     if (carrier == 1) {
       if (cand < -(i128)pow2(63) || cand >= (i128)pow2(63)) return false;
@@ -220,7 +220,7 @@ template <class F> static void check_write(F f, unsigned char *buf, int len, int
   bool rep = representable(n, cand);
   bool could = false, wrote = false;
   bool present = BYTES_MODE ? (o + w <= len) : (len >= NB);
-  if (!Carrier<F, (KIND == KUInt || KIND == KInt)>::apply(f, cand, carrier, could, wrote)) return;
+  if (!Carrier<F, (KIND == KUInt || KIND == KInt || KIND == KBcd)>::apply(f, cand, carrier, could, wrote)) return;
   ++g_writes;
   char tag[64]; std::snprintf(tag, sizeof tag, "c%d", carrier);
   if (could != rep) { report("could-write", name, before, (could ? "1 v=" : "0 v=") + i128s(cand), rep ? "1" : "0"); return; }
